@@ -13,6 +13,8 @@ Suites
   sources  (conformance) the same document as str, bytes, StringIO, BytesIO, text file, binary file and path gives the
                          same graph; rdflib's XML and JSON outputs are well-formed.
   xmlout   (conformance) RDF/XML output well-formedness on and around the regions of findings C05j/C05k.
+  relref   (conformance) one relative IRI reference per Turtle/TriG document, every RFC 3986 kind x every kind of base x
+                         @base / BASE / publicID, against the harness's own RFC 3986 5.2 resolver (findings C05l-o).
 """
 from __future__ import annotations
 
